@@ -103,6 +103,10 @@ fn materialise(root: &Path, n: usize, adj: &[Vec<bool>], variant: u64, dangling:
                     pkg.push_str("[[dependencies]]\nuri = \"../relative/noise\"\n");
                 }
                 pkg.push_str(&format!("[[dependencies]]\nuri = \"libcnb:{}\"\n", id_of(*j)));
+                if k == 0 && variant >> 9 & 1 == 1 {
+                    // the same dependency listed a second time
+                    pkg.push_str(&format!("[[dependencies]]\nuri = \"libcnb:{}\"\n", id_of(*j)));
+                }
             }
             if dangling == Some(i) {
                 pkg.push_str(if variant >> 2 & 1 == 1 { "[[dependencies]]\nuri = \"libcnb:vp/missing_one\"\n" } else { "[[dependencies]]\nuri = \"libcnb:vp/missing\"\n" });
@@ -129,6 +133,10 @@ fn materialise(root: &Path, n: usize, adj: &[Vec<bool>], variant: u64, dangling:
                     pkg.push_str("[[dependencies]]\nuri = \"docker://docker.io/heroku/procfile-cnb:2.0.1\"\n");
                 }
                 pkg.push_str(&format!("[[dependencies]]\nuri = \"libcnb:{}\"\n", id_of(*j)));
+                if k == 0 && variant >> 9 & 1 == 1 {
+                    // the same dependency listed a second time
+                    pkg.push_str(&format!("[[dependencies]]\nuri = \"libcnb:{}\"\n", id_of(*j)));
+                }
             }
             if dangling == Some(i) {
                 pkg.push_str(if variant >> 2 & 1 == 1 { "[[dependencies]]\nuri = \"libcnb:vp/missing_one\"\n" } else { "[[dependencies]]\nuri = \"libcnb:vp/missing\"\n" });
@@ -152,6 +160,15 @@ fn materialise(root: &Path, n: usize, adj: &[Vec<bool>], variant: u64, dangling:
     fs::create_dir_all(&other).unwrap();
     fs::write(other.join("buildpack.toml"), "api = \"0.10\"\n[buildpack]\nid = \"vp/other\"\nversion = \"1.0.0\"\n").unwrap();
     fs::create_dir_all(root.join("not-a-buildpack/src")).unwrap();
+    // variant bit 8: directories whose buildpack.toml does not parse, sorting before and between the real ones: passed over
+    if variant >> 8 & 1 == 1 {
+        for name in ["0-broken", "a-broken/inner", "deep/0-broken", "zzz-broken"] {
+            let d = root.join(name);
+            fs::create_dir_all(&d).unwrap();
+            fs::write(d.join("buildpack.toml"), "api = \"0.10\"\n[buildpack\nid = ").unwrap();
+            fs::write(d.join("Cargo.toml"), "[package]\nname = \"broken\"\nversion = \"0.0.0\"\n").unwrap();
+        }
+    }
     // a second foreign buildpack at the directory the NEXT larger workspace uses for a real node (matters where a path is re-used)
     if n < 12 {
         let names = if variant >> 4 & 1 == 1 { &DIRS_PREFIX } else { &DIRS };
@@ -309,7 +326,7 @@ pub fn run(args: &[String]) {
             if counter % nshards != shard {
                 continue;
             }
-            let variant = ((counter.wrapping_mul(0x9E37_79B9_7F4A_7C15) >> 40) + seed) % 256;
+            let variant = ((counter.wrapping_mul(0x9E37_79B9_7F4A_7C15) >> 40) + seed) % 1024;
             // every third graph is laid out at one and the same path (removed and rebuilt in between): nothing learnt about a path
             // while loading an earlier workspace may leak into the next
             let root = if counter % 3 == 0 { work.join("reused") } else { work.join(format!("d{counter}")) };
@@ -340,7 +357,7 @@ pub fn run(args: &[String]) {
         }
         let sels = selections(n, Some((40, &mut rng)));
         let root = if r % 2 == 0 { work.join("reused") } else { work.join(format!("r{r}")) };
-        check_dag(&root, n, &adj, rng.below(256), &sels, &mut tally);
+        check_dag(&root, n, &adj, rng.below(1024), &sels, &mut tally);
     }
     // dangling dependency
     let mut dangling_checked = 0;
@@ -359,7 +376,7 @@ pub fn run(args: &[String]) {
         }
         let who = rng.below(n as u64) as usize;
         let root = work.join(format!("m{r}"));
-        materialise(&root, n, &adj, rng.below(256), Some(who));
+        materialise(&root, n, &adj, rng.below(1024), Some(who));
         dangling_checked += 1;
         match build_libcnb_buildpacks_dependency_graph(&root) {
             Ok(_) => {
